@@ -416,6 +416,27 @@ def _case_map(s, fn, uf):
     return mk_str(z3.Concat(*out) if len(out) > 1 else out[0])
 
 
+def str_isascii(s):
+    return mk_bool(z3.InRe(z(s), z3.Star(z3.Range(z3.StringVal('\x00'), z3.StringVal('\x7f')))))
+
+
+def str_charmap(s, fn, what):
+    """exact character-by-character image of a symbolic string whose alphabet was declared (ctx.str(alphabet=...)):
+    fn is applied to each character of the alphabet; only valid for context-free maps, which is checked on all
+    pairs of the alphabet"""
+    eng = engine()
+    for a in atoms(z(s)):
+        if z3.is_const(a) and not z3.is_string_value(a):
+            meta = eng.str_meta.get(a.decl().name())
+            if meta is None:
+                raise HarnessError('%s of a symbolic string without a declared alphabet' % what)
+            for x in meta[1]:
+                for y in meta[1]:
+                    if fn(x + y) != fn(x) + fn(y):
+                        raise HarnessError('%s is not character-wise on the alphabet (%r + %r)' % (what, x, y))
+    return _case_map(s, fn, None)
+
+
 def str_lower(s):
     if not isinstance(s, SStr):
         return s.lower()
@@ -511,7 +532,7 @@ STR_METHODS = {
     'rfind': str_rfind, 'split': str_split, 'rsplit': str_rsplit, 'rstrip': str_rstrip,
     'lstrip': str_lstrip, 'strip': str_strip, 'replace': str_replace, 'lower': str_lower,
     'upper': str_upper, 'join': str_join, 'format': str_format, 'removeprefix': str_removeprefix,
-    'removesuffix': str_removesuffix, 'expandtabs': str_expandtabs, 'isidentifier': str_isidentifier_ascii, 'count': str_count,
+    'removesuffix': str_removesuffix, 'expandtabs': str_expandtabs, 'isascii': str_isascii, 'isidentifier': str_isidentifier_ascii, 'count': str_count,
     'encode': str_encode, 'splitlines': str_splitlines,
 }
 
